@@ -8,18 +8,18 @@ Require Import ExcerptModel Model Spec Refine Within Entry Finalize.
    end = position after its last member, ignorable text skipped after its last
    token included) — it is part of `result s' = v` in the refinement theorem *)
 Theorem C10_span_exact :
-  forall (g funs : list (list nat * expr)) (named : bool) (ignored : option nat)
+  forall (g funs : list (list nat * expr)) (ignored : option nat)
          (t : list nat) (rx : nat -> nat -> option nat),
     (forall r b, nth_error g r = Some ([], b) -> wf g ignored t rx [] b) ->
     (forall r, ignored = Some r -> exists es, nth_error g r = Some ([], Skip es)) ->
     forall n e sc E s v p', wf g ignored t rx sc e -> scope_of sc E -> sub E (locals s) ->
       peg g ignored t rx n E e (pos s) = Match v p' ->
-      exists s', exec true g funs named ignored t rx n e s = Done s' /\ status s' = true /\ result s' = v /\ pos s' = p'.
+      exists s', exec true g funs ignored t rx n e s = Done s' /\ status s' = true /\ result s' = v /\ pos s' = p'.
 Proof.
-  intros g funs named ignored t rx Hg Hi n e sc E s v p' Hw Hs Hl Hp.
-  pose proof (exec_refines_peg g funs named ignored t rx Hg Hi n e sc E s Hw Hs Hl) as H.
+  intros g funs ignored t rx Hg Hi n e sc E s v p' Hw Hs Hl Hp.
+  pose proof (exec_refines_peg g funs ignored t rx Hg Hi n e sc E s Hw Hs Hl) as H.
   unfold agree in H. rewrite Hp in H.
-  destruct (exec true g funs named ignored t rx n e s) as [s'| |]; try contradiction.
+  destruct (exec true g funs ignored t rx n e s) as [s'| |]; try contradiction.
   destruct H as (A & B & C & _). eauto.
 Qed.
 Print Assumptions C10_span_exact.
